@@ -28,6 +28,13 @@ type blobSet struct {
 	hashes     []common.Hash
 }
 
+// nBlobs distinct blobs are prepared (KZG commitments, blob and cell proofs); the race variant
+// uses fewer because the proof computation is ~20x slower under the race detector.
+var nBlobs = 6
+
+// blockGasLimit is lowered in the race variant (EVM execution is ~30x slower there).
+var blockGasLimit uint64 = 30_000_000
+
 var (
 	blobsOnce sync.Once
 	blobsVal  *blobSet
@@ -36,7 +43,7 @@ var (
 func blobs() *blobSet {
 	blobsOnce.Do(func() {
 		bs := &blobSet{}
-		for i := 0; i < 6; i++ {
+		for i := 0; i < nBlobs; i++ {
 			var b kzg4844.Blob
 			b[1], b[33], b[65] = byte(i+1), byte(2*i+1), 7
 			c, err := kzg4844.BlobToCommitment(&b)
@@ -174,6 +181,6 @@ func newWorld(rng *rand.Rand, fork string) *world {
 	// depFail: CALL depRev (inner revert), store the flag, succeed: still no request
 	alloc[w.depFail] = types.Account{Code: proggen.Wrapper(proggen.CALL, w.depRev, proggen.WrapOpts{StoreFlag: true, FlagSlot: 0}), Balance: big.NewInt(1), Nonce: 1}
 	w.allConts = append(append([]common.Address{}, w.gen...), w.probe, w.emitter, w.tstorer, w.depRev, w.depFail)
-	w.gspec = &core.Genesis{Config: w.config, Alloc: alloc, GasLimit: 30_000_000, BaseFee: big.NewInt(params.InitialBaseFee), Difficulty: common.Big0, Timestamp: 1_000_000}
+	w.gspec = &core.Genesis{Config: w.config, Alloc: alloc, GasLimit: blockGasLimit, BaseFee: big.NewInt(params.InitialBaseFee), Difficulty: common.Big0, Timestamp: 1_000_000}
 	return w
 }
